@@ -18,7 +18,7 @@ var c04Points = []string{
 
 func genC04(t *rapid.T) C04Scn {
 	var s C04Scn
-	kinds := []string{"cmd-short", "cmd-short", "cmd-slow", "cmd-slow", "cmd-fail", "remote-cmd", "remote-absent"}
+	kinds := []string{"cmd-short", "cmd-short", "cmd-slow", "cmd-slow", "cmd-fail", "remote-cmd", "remote-cmd", "remote-short", "remote-absent"}
 	ncycles := rapid.SampledFrom([]int{1, 1, 1, 2, 3}).Draw(t, "cycles")
 	for i := 0; i < ncycles; i++ {
 		p := C04Phase{Index: i, GapMs: rapid.SampledFrom([]int{0, 0, 50, 300}).Draw(t, "gap")}
@@ -32,7 +32,7 @@ func genC04(t *rapid.T) C04Scn {
 		if rapid.IntRange(0, 4).Draw(t, "usepoint") > 0 {
 			p.Crash = rapid.SampledFrom(c04Points).Draw(t, "point") + ":" + fmt.Sprint(rapid.SampledFrom([]int{1, 1, 2, 3, 5, 8}).Draw(t, "nth"))
 		}
-		p.KillMs = rapid.SampledFrom([]int{150, 400, 900, 1800, 3500}).Draw(t, "killms")
+		p.KillMs = rapid.SampledFrom([]int{150, 400, 900, 1800, 3500, 6000}).Draw(t, "killms")
 		if rapid.IntRange(0, 3).Draw(t, "slowrunner") == 0 {
 			p.RunnerDelayMs = rapid.SampledFrom([]int{800, 2500}).Draw(t, "runnerdelay")
 		}
@@ -44,7 +44,7 @@ func genC04(t *rapid.T) C04Scn {
 
 func TestC04(t *testing.T) {
 	st := vx.NewStats("C04", "crash", "1-3 incarnations of a node (netceptor + workceptor + control service in one process, command units run by real runner processes, a second real daemon as remote executor) on one data directory: each submits 0-4 units "+
-		"{short / slow / failing command, remote command, remote to an absent node} and is killed with SIGKILL either at the n-th passage of a named point (hook: between the file-system steps of creating a unit, storing input, rewriting the status record "+
+		"{short / slow / failing command, remote slow / short command, remote to an absent node} and is killed with SIGKILL either at the n-th passage of a named point (hook: between the file-system steps of creating a unit, storing input, rewriting the status record "+
 		"in daemon or runner, remote start) or after a drawn time; what clients were told (acknowledged IDs, finished states and sizes, remote unit IDs) is journalled with fsync; a final incarnation is judged: 'work list' answers within 5 s, every acknowledged "+
 		"unit is listed with its work type and remote binding, finished units report the same state/size and their exact output, running commands reach their final state with complete output, never-started ones are reported failed; "+
 		"non-trivial = >= 1 kill after >= 1 acknowledgement; distinct by canonical JSON")
